@@ -21,6 +21,7 @@ type SOp struct {
 	Op   string `json:"op"`
 	Seat int    `json:"seat"`
 	P    int    `json:"p"`
+	Got  int    `json:"got,omitempty"` // Join(-1): the seat the recorded run got, +1 (0 = not recorded)
 }
 
 type SScript struct {
@@ -107,8 +108,12 @@ func (r *seatRun) do(op SOp) string {
 	if op.Op == "Join" {
 		r.nextP++
 	}
-	r.script.Ops = append(r.script.Ops, op)
 	got, res := applySeat(r.m, op)
+	rec := op
+	if op.Op == "Join" && op.Seat == -1 && got >= 0 {
+		rec.Got = got + 1
+	}
+	r.script.Ops = append(r.script.Ops, rec)
 	r.o.write(M{"kind": "main", "reset": false, "run": r.run, "op": op.Op, "seat": op.Seat, "p": op.P, "got": got, "res": res, "state": projSeat(r.m)})
 	return res
 }
@@ -133,7 +138,7 @@ func randomSeatHistory(o *potsOut, run int, r *rand.Rand, steps int) *seatRun {
 			if r.Intn(3) == 0 {
 				js = -1
 			}
-			res = sr.do(SOp{"Join", js, 0})
+			res = sr.do(SOp{Op: "Join", Seat: js, P: 0})
 			if res == "" && r.Intn(4) != 0 {
 				// most players sit in right away
 				last := sr.script.Ops[len(sr.script.Ops)-1]
@@ -141,18 +146,18 @@ func randomSeatHistory(o *potsOut, run int, r *rand.Rand, steps int) *seatRun {
 				// find the seat the player got: scan for the newest player id
 				for s := 0; s < max; s++ {
 					if st := sr.m.GetSeat(s); st != nil && st.Player != nil && st.Player.(int) == sr.nextP-1 {
-						sr.do(SOp{"SitIn", s, 0})
+						sr.do(SOp{Op: "SitIn", Seat: s, P: 0})
 					}
 				}
 			}
 		case k < 30:
-			sr.do(SOp{"SitIn", seat, 0})
+			sr.do(SOp{Op: "SitIn", Seat: seat, P: 0})
 		case k < 36:
-			sr.do(SOp{"Reserve", seat, 0})
+			sr.do(SOp{Op: "Reserve", Seat: seat, P: 0})
 		case k < 46:
-			sr.do(SOp{"Leave", seat, 0})
+			sr.do(SOp{Op: "Leave", Seat: seat, P: 0})
 		default:
-			res = sr.do(SOp{"Next", -1, 0})
+			res = sr.do(SOp{Op: "Next", Seat: -1, P: 0})
 			if res == "PANIC" {
 				return sr
 			}
@@ -203,11 +208,17 @@ func cmdSeatReplay(args []string) {
 	out := fs.String("o", "seat.ndjson", "")
 	outScripts := fs.String("out-scripts", "", "")
 	only := fs.Int("run", -1, "")
+	pin := fs.Bool("pin", false, "replace Join(-1) by a join of the seat the recorded run got (the code picks it with math/rand)")
+	repeat := fs.Int("repeat", 1, "replay each script this many times")
 	fs.Parse(args)
 	tw := newTraceWriter(*out)
 	o := &potsOut{w: tw}
 	var rs []*seatRun
-	for _, raw := range readNDJSON(*in) {
+	var raws [][]byte
+	for k := 0; k < *repeat; k++ {
+		raws = append(raws, readNDJSON(*in)...)
+	}
+	for _, raw := range raws {
 		var s SScript
 		if err := json.Unmarshal(raw, &s); err != nil {
 			fatal("bad script: %v", err)
@@ -217,6 +228,10 @@ func cmdSeatReplay(args []string) {
 		}
 		sr := newSeatRun(o, s.Run, s.Max)
 		for _, op := range s.Ops {
+			if *pin && op.Op == "Join" && op.Seat == -1 && op.Got > 0 {
+				op.Seat = op.Got - 1
+			}
+			op.Got = 0
 			if sr.do(op) == "PANIC" {
 				break
 			}
@@ -347,7 +362,7 @@ func cmdSeatExplore(args []string) {
 		for s := -2; s <= *max+1; s++ {
 			for p := 1; p <= *nplayers; p++ {
 				if !seated[p] {
-					ops = append(ops, SOp{"Join", s, p})
+					ops = append(ops, SOp{Op: "Join", Seat: s, P: p})
 					break // player ids are interchangeable: the smallest free id suffices
 				}
 			}
@@ -356,9 +371,9 @@ func cmdSeatExplore(args []string) {
 			}
 		}
 		for s := -1; s <= *max; s++ {
-			ops = append(ops, SOp{"SitIn", s, 0}, SOp{"Reserve", s, 0}, SOp{"Leave", s, 0})
+			ops = append(ops, SOp{Op: "SitIn", Seat: s, P: 0}, SOp{Op: "Reserve", Seat: s, P: 0}, SOp{Op: "Leave", Seat: s, P: 0})
 		}
-		ops = append(ops, SOp{"Next", -1, 0})
+		ops = append(ops, SOp{Op: "Next", Seat: -1, P: 0})
 		// Join(-1) picks its seat at random: try it several times
 		for k := 0; k < 5 && *emit == "all"; k++ {
 			ops = append(ops, ops[1])
@@ -380,7 +395,7 @@ func cmdSeatExplore(args []string) {
 				np := append(append([]SOp{}, nd.path...), op)
 				if op.Op == "Join" && op.Seat == -1 {
 					// the random choice of Join(-1) is pinned for the rebuild: re-join the seat it got
-					np[len(np)-1] = SOp{"Join", got, op.P}
+					np[len(np)-1] = SOp{Op: "Join", Seat: got, P: op.P}
 				}
 				queue = append(queue, node{np, snapshot(m)})
 			}
